@@ -344,11 +344,17 @@ RELATED_PHASES = {"phreeqc.dat": ["Fe(OH)3(a)", "Goethite", "Gibbsite"], "wateq4
                   "minteq.v4.dat": ["Ferrihydrite", "Goethite", "Gibbsite"]}
 
 
+SERIES_MODELS = ["no_edl", "ddl", "dl_bw", "donnan", "ccm", "ccm", "cdmusic", "cdmusic_donnan"]
+
+
 @st.composite
-def case_st(draw):
+def case_st(draw, series=False):
+    """series=True: the time-series leg - ONE surface whose sites and area follow a kinetic reactant (first-order change by 10-60 % per
+    step over 3-5 cumulative time steps, decreasing, or growing where the solution holds the reactant's elements) or an equilibrium
+    phase (3-5 REACTION steps that dissolve or precipitate it), for every electrostatic model"""
     dbn = draw(st.sampled_from([d for d, w in DATABASES for _ in range(w)]))
     inf = info(dbn)
-    model = draw(st.sampled_from(MODELS))
+    model = draw(st.sampled_from(SERIES_MODELS if series else MODELS))
     cd = model.startswith("cdmusic")
     # sorbing ions
     cats = [e for e in CATIONS if e in inf.sorbing and inf.label_ok(e)]
@@ -356,7 +362,7 @@ def case_st(draw):
     cations = draw(st.lists(st.sampled_from(cats), min_size=0, max_size=2, unique=True))
     anions = draw(st.lists(st.sampled_from(ans), min_size=0, max_size=2 if cations else 1, unique=True))
     # surfaces
-    nsurf = draw(st.sampled_from([1, 1, 1, 2]))
+    nsurf = 1 if series else draw(st.sampled_from([1, 1, 1, 2]))
     kinds = []
     if cd:
         kinds = ["user"] * nsurf
@@ -366,10 +372,11 @@ def case_st(draw):
             kinds[1] = "user"
     defs = []
     unames = draw(st.permutations(USER_SURFACES))
-    related = draw(st.integers(0, 5)) == 0 and nsurf == 1
+    related = series or (draw(st.integers(0, 5)) == 0 and nsurf == 1)
     rel = None
     if related:
-        rel = {"kind": draw(st.sampled_from(["phase", "phase", "kinetic"])), "phase": draw(st.sampled_from(RELATED_PHASES[dbn]))}
+        rel = {"kind": draw(st.sampled_from(["kinetic", "kinetic", "phase"] if series else ["phase", "phase", "kinetic"])),
+               "phase": draw(st.sampled_from(RELATED_PHASES[dbn]))}
     excl = None
     surfs = []
     units = draw(st.sampled_from(["absolute", "absolute", "density"])) if not related else "absolute"
@@ -432,6 +439,41 @@ def case_st(draw):
     case = {"db": dbn, "defs": defs, "sol": sol, "surface": surface}
     if excl:
         case["excl"] = excl
+    if series:
+        case["series"] = True
+        nst = draw(st.integers(3, 5))
+        f = draw(cg.uni(0.1, 0.6, 2))
+        grow = draw(st.integers(0, 2)) == 0
+        rel["steps"] = nst
+        if rel["kind"] == "kinetic":
+            # first-order law  dm/dt = -k m : the amount changes by the same fraction f in every step
+            rel["law"] = "first_order"
+            rel["time"] = draw(st.sampled_from([100.0, 3600.0, 86400.0])) * nst
+            bg = sol["comps"][0]                      # background cation (Na / K) and its molality
+            if grow and bg[1] >= 1e-3:
+                # growth only from elements the solution holds: the hydroxide of the background cation, at most 30 % of it in total
+                rel["formula"] = bg[0] + "OH"
+                rel["k"] = _r(-math.log(1.0 + f) / (rel["time"] / nst), 6)
+                rel["m0"] = _r(min(draw(cg.logu(1e-5, 1e-3, 3)), 0.3 * bg[1] / ((1.0 + f) ** nst - 1.0)), 3)
+            else:
+                rel["k"] = _r(-math.log(1.0 - f) / (rel["time"] / nst), 6)
+                rel["m0"] = draw(cg.logu(1e-5, 1e-3, 3))
+        else:
+            rel["si"] = 0.0
+            rel["m0"] = draw(cg.logu(1e-5, 1e-3, 3))
+            pf = phase_formula(inf, rel["phase"])
+            if grow:
+                # the phase's own formula added to the solution precipitates: the phase grows by the fraction f per step
+                case["reaction"] = {"formula": pf, "moles": _r(rel["m0"] * ((1.0 + f) ** nst - 1.0), 4), "steps": nst}
+            else:
+                # acid dissolves the hydroxide: 3 H+ per mole (plus what brings the solution down to the pH where it dissolves)
+                case["reaction"] = {"formula": "HCl", "moles": _r(3.0 * rel["m0"] * (1.0 - (1.0 - f) ** nst) + draw(cg.logu(1e-4, 1e-2, 2)), 4),
+                                    "steps": nst}
+        if draw(st.integers(0, 3)) == 0 and rel["kind"] == "phase":
+            ok = [r for r in REACTANTS if all(e in inf.elem_ok for e in F.elements(r))]
+            case["second"] = {"formula": draw(st.sampled_from(ok)), "moles": draw(cg.logu(1e-6, 3e-3, 3)), "steps": draw(st.integers(1, 2))}
+        case["rel"] = rel
+        return case
     if rel:
         case["rel"] = rel
         m0 = draw(cg.logu(1e-4, 1e-1, 3))
@@ -536,6 +578,8 @@ def case_elements(inf, case):
     if case.get("rel"):
         ph = inf.db.phase(case["rel"]["phase"])
         els |= set(ph.elements)
+        if case["rel"].get("formula"):
+            els |= set(F.elements(case["rel"]["formula"]))
     return sorted(els - {"H", "O", "e"})
 
 
@@ -583,14 +627,18 @@ def build_input(case):
     NE = len(aq) + 4
     P = [M.defs_text + cg.KNOBS_TIGHT]
     if rel and rel["kind"] == "kinetic":
-        P.append("RATES\n Relrate\n -start\n 10 moles = PARM(1) * TIME\n 20 IF (moles > M) THEN moles = M\n 30 SAVE moles\n -end")
+        if rel.get("law") == "first_order":
+            P.append("RATES\n Relrate\n -start\n 10 moles = PARM(1) * M * TIME\n 20 SAVE moles\n -end")
+        else:
+            P.append("RATES\n Relrate\n -start\n 10 moles = PARM(1) * TIME\n 20 IF (moles > M) THEN moles = M\n 30 SAVE moles\n -end")
     P.append(cg.render_solution(case["sol"]))
     if rel:
         if rel["kind"] == "phase":
             P.append("EQUILIBRIUM_PHASES 1\n %s %s %s" % (rel["phase"], cg.fmt(rel["si"]), cg.fmt(rel["m0"])))
         else:
             P.append("KINETICS 1\n Relrate\n -formula %s 1\n -m0 %s\n -parms %s\n -steps %s in %d steps"
-                     % (phase_formula(inf, rel["phase"]), cg.fmt(rel["m0"]), cg.fmt(rel["rate"]), cg.fmt(rel["time"]), rel["steps"]))
+                     % (rel.get("formula") or phase_formula(inf, rel["phase"]), cg.fmt(rel["m0"]),
+                        cg.fmt(rel["k"] if rel.get("law") == "first_order" else rel["rate"]), cg.fmt(rel["time"]), rel["steps"]))
     L = ["SURFACE 1"]
     if S["equil"]:
         L.append(" -equilibrate 1")
@@ -727,6 +775,11 @@ def check_case(case, ctx):
             dls[name] = {"species": d, "area": cells[1], "thickness": cells[2]}
         check_row(case, M, v, dls, state, nrow[state], stats, "row %d (%s)" % (r, state))
         stats["rows"] += 1
+        if case.get("rel") and state == "react" and isinstance(v.get("REL"), (int, float)):
+            prev = stats.get("rel_prev", case["rel"]["m0"])
+            if prev > 0 and abs(v["REL"] - prev) >= 0.05 * prev:
+                stats["relchange"] = True
+            stats["rel_prev"] = v["REL"]
     if stats["rows"] == 0:
         raise RuntimeError("no row with a surface")
     model = S["model"]
@@ -736,6 +789,12 @@ def check_case(case, ctx):
                "equilibrate=%s" % S["equil"], "units=" + S["units"]]
     if case.get("rel"):
         classes.append("related=" + case["rel"]["kind"])
+        if case.get("series"):
+            classes.append("series:%s:%s" % (case["rel"]["kind"], model))
+            classes.append("series:" + ("growing" if (case["rel"].get("k", 0) < 0 or (case["rel"]["kind"] == "phase" and
+                                                       case["reaction"]["formula"] != "HCl")) else "decreasing"))
+            if stats.get("relchange"):
+                classes.append("series:related_amount_changed_by>=5%_in_some_step")
     if case.get("reaction"):
         classes.append("reaction_steps")
     if case.get("second"):
@@ -1015,7 +1074,8 @@ def aqueous_ions(M, v):
 
 def run(ctx):
     n = BUDGET[ctx.tier]
-    ctx.hyp(case_st(), lambda c: check_case(c, ctx), n, "surf")
+    ctx.hyp(case_st(), lambda c: check_case(c, ctx), n - n // 3, "surf")
+    ctx.hyp(case_st(series=True), lambda c: check_case(c, ctx), n // 3, "series")
 
 
 def debug_discards(n=200, seed_=5):
